@@ -196,6 +196,7 @@ class FakeVCS:
             subject = self.last_subject()
             rows = [(" ", "dev", "1234567", "origin/dev", "other"), ("*", "main", "89abcde", "origin/main", subject)] if self.remote == "upstream" \
                 else [("*", "main", "89abcde", "", subject)]
+            rows.insert(0, (" ", "fix/\u00fcberschrift", "7654321", "", "wip \u00fc"))  # (some other local branch has a non-ASCII name)
             fmt = next((a[len("--format="):] for a in argv if a.startswith("--format=")), None)
             if fmt is None:
                 # -vv layout: "<HEAD> <name> <hash> [<upstream>] <subject>" / without upstream "<HEAD> <name> <hash> <subject>"
@@ -325,15 +326,15 @@ def path_fake_setup(fake_dir, bin_dir, tags_all=(), tags_merged=None, status=(),
     os.chmod(git, 0o755)
 
     def w(name, lines):
-        with open(os.path.join(fake_dir, name), "w") as f:
+        with open(os.path.join(fake_dir, name), "w", encoding="utf-8") as f:
             f.write("".join(l + "\n" for l in lines))
 
     w("tags_all.txt", tags_all)
     w("tags_merged.txt", tags_all if tags_merged is None else tags_merged)
     w("status.txt", status)
-    w("branches.txt", ["  dev    1234567 [origin/dev] other", "* main   89abcde [origin/main] bump"] if remote == "upstream" else ["* main   89abcde bump"])
+    w("branches.txt", ["  fix/\u00fcberschrift 7654321 wip \u00fc"] + (["  dev    1234567 [origin/dev] other", "* main   89abcde [origin/main] bump"] if remote == "upstream" else ["* main   89abcde bump"]))
     # (the executable does not interpret --format; it serves what the format in use - HEAD name hash [upstream] - prints)
-    w("branches_fmt.txt", ["  dev 1234567 [origin/dev]", "* main 89abcde [origin/main]"] if remote == "upstream" else ["* main 89abcde []"])
+    w("branches_fmt.txt", ["  fix/\u00fcberschrift 7654321 []"] + (["  dev 1234567 [origin/dev]", "* main 89abcde [origin/main]"] if remote == "upstream" else ["* main 89abcde []"]))
     w("remote.txt", ["git@example.invalid:demo/demo.git"] if remote in ("upstream", "url") else [])
     open(os.path.join(fake_dir, "argv.log"), "w").close()
 
